@@ -64,6 +64,31 @@ uri_unquote = z3.Function("uri_unquote", STR, STR)
 int_and = z3.Function("int_and", INT, INT, INT)
 
 
+class PyIterator:
+    """Marker class of modelled iterator objects: field `rest` = the items still to be produced.
+
+    ASSUMED contracts (itertools / collections docs), valid when the underlying iterator is not
+    advanced by anybody else (ownership precondition of Query, DESIGN C12):
+      iter(list) -> iterator over its items;  next(it[, d]) -> pops the first item
+      islice(it, n) / islice(it, a, b) -> consumes and yields it[a:b] (taken eagerly: equal under ownership)
+      deque(it, maxlen=n) -> the last n items (all consumed);  tee(it, n) -> n independent copies
+    """
+
+
+def new_iterator(it, rest):
+    return it.alloc(PyIterator, {"rest": rest}, origin="FRESH")
+
+
+def as_iterator(it, v):
+    if isinstance(v, SymObj) and v.cls is PyIterator:
+        return v
+    if S.is_term(v):
+        o = it.deref(v)
+        if isinstance(o, SymObj) and o.cls is PyIterator:
+            return o
+    return None
+
+
 def unbox(it, v):
     """Box (mutable container object) -> its current content term."""
     if isinstance(v, IterSpec) and v.term is not None:
@@ -326,6 +351,11 @@ def _minmax(is_min):
 
 def seq_of(it, v):
     """iterable value -> Seq term of its elements (or None)."""
+    io = as_iterator(it, v)
+    if io is not None:
+        rest = io.fields["rest"]
+        io.fields["rest"] = S.EmptySeq
+        return rest
     v = unbox(it, v)
     if isinstance(v, LazyGen):
         v = run_genexp(it, v)
@@ -439,10 +469,39 @@ def _dict(it, a, k):
 
 
 def _iter(it, a, k):
-    return a[0]
+    v = a[0]
+    if as_iterator(it, v) is not None:
+        return as_iterator(it, v)
+    if isinstance(v, (GenVal, LazyGen)):
+        s_ = seq_of(it, v)
+        if s_ is None:
+            raise Unsupported("iter() of this generator")
+        return new_iterator(it, s_)
+    if isinstance(v, SymObj) and v.cls not in (list, dict):
+        if "__iter__" in _mro_names(v.cls):
+            return it.call_method(v, "__iter__", [])
+        it.raise_(TypeError, "object is not iterable")
+    t = T(it, v)
+    o = it.deref(t)
+    if isinstance(o, SymObj) and o.cls not in (list, dict):
+        return _iter(it, [o], k)
+    if it.branch(z3.Or(Py.is_list(t), Py.is_tuple(t), Py.is_nodelist(t))):
+        return new_iterator(it, S.seq_items(t))
+    if it.branch(Py.is_dict(t)):
+        return new_iterator(it, Py.keys(t))
+    raise Unsupported("iter() of this value")
 
 
 def _next(it, a, k):
+    io = as_iterator(it, a[0])
+    if io is not None:
+        rest = io.fields["rest"]
+        if it.branch(z3.Length(rest) > 0):
+            io.fields["rest"] = z3.Extract(rest, 1, z3.Length(rest) - 1)
+            return rest[0]
+        if len(a) > 1:
+            return a[1]
+        it.raise_(StopIteration)
     v = unbox(it, a[0])
     if isinstance(v, LazyGen):
         v = run_genexp(it, v)
@@ -553,6 +612,15 @@ def iterate(it, v):
     """value -> python list of element values | GenVal | IterSpec"""
     if isinstance(v, IterSpec):
         return v
+    io = as_iterator(it, v)
+    if io is not None:
+        rest = io.fields["rest"]
+        io.fields["rest"] = S.EmptySeq  # exhausted by the loop
+        n = concrete_len(z3.simplify(rest))
+        if n is not None:
+            return [z3.simplify(rest[i]) for i in range(n)]
+        extra = [f for (q, f) in getattr(it, "elem_facts", []) if z3.eq(z3.simplify(q), z3.simplify(rest))]
+        return IterSpec(("seq", rest), lambda i: rest[i], lambda i: z3.And(i >= 0, i < z3.Length(rest), *[f(rest[i]) for f in extra]), z3.Length(rest))
     v = unbox(it, v)
     if isinstance(v, (list,)):
         return v
@@ -1682,6 +1750,103 @@ def _re_fn(ufn, name):
     return Builtin(name, f)
 
 
+def _islice(it, a, k):
+    io = as_iterator(it, a[0])
+    if io is None:
+        io = _iter(it, [a[0]], {})
+    rest = io.fields["rest"]
+    n = z3.Length(rest)
+
+    def arg(x):
+        t = T(it, x)
+        if it.branch(Py.is_none(t)):
+            return None
+        if not it.branch(S.is_intlike(t)):
+            it.raise_(ValueError, "Indices for islice() must be None or an integer")
+        v = S.intval(t)
+        if it.branch(v < 0):
+            it.raise_(ValueError, "Indices for islice() must be None or an integer: 0 <= x <= sys.maxsize")
+        return v
+
+    if len(a) == 2:
+        start, stop = z3.IntVal(0), arg(a[1])
+    elif len(a) == 3:
+        start, stop = arg(a[1]), arg(a[2])
+        if start is None:
+            start = z3.IntVal(0)
+    else:
+        raise Unsupported("islice with a step")
+    if stop is None:
+        stop = n
+    lo = z3.If(start > n, n, start)
+    hi = z3.If(stop > n, n, stop)
+    hi = z3.If(hi < lo, lo, hi)
+    taken = z3.Extract(rest, lo, hi - lo)
+    # everything up to max(start, stop) is consumed from the underlying iterator
+    used = z3.If(hi > lo, hi, lo)
+    io.fields["rest"] = z3.Extract(rest, used, n - used)
+    it.assumed.append("lib:itertools.islice (eager model, equal under iterator ownership)")
+    return new_iterator(it, taken)
+
+
+def _deque(it, a, k):
+    rest = seq_of(it, a[0])
+    if rest is None:
+        raise Unsupported("deque() of this iterable")
+    maxlen = k.get("maxlen", a[1] if len(a) > 1 else S.NONE)
+    m = T(it, maxlen)
+    n = z3.Length(rest)
+    it.assumed.append("lib:collections.deque(iterable, maxlen)")
+    if it.branch(Py.is_none(m)):
+        return Py.list(rest)
+    if not it.branch(S.is_intlike(m)):
+        it.raise_(TypeError, "an integer is required")
+    mv = S.intval(m)
+    if it.branch(mv < 0):
+        it.raise_(ValueError, "maxlen must be non-negative")
+    lo = z3.If(n - mv > 0, n - mv, 0)
+    return Py.list(z3.Extract(rest, lo, n - lo))
+
+
+def _tee(it, a, k):
+    rest = seq_of(it, a[0])
+    if rest is None:
+        raise Unsupported("tee() of this iterable")
+    n = T(it, a[1]) if len(a) > 1 else S.mk_int(2)
+    nv = z3.simplify(S.intval(n))
+    it.assumed.append("lib:itertools.tee")
+    if not z3.is_int_value(nv):
+        if it.branch(nv < 0):
+            it.raise_(ValueError, "n must be >= 0")
+        raise Unsupported("tee with a symbolic count")
+    if nv.as_long() < 0:
+        it.raise_(ValueError, "n must be >= 0")
+    return [new_iterator(it, rest) for _ in range(nv.as_long())]
+
+
+def _filter(it, a, k):
+    fn, src = a
+    if not (isinstance(fn, Builtin) and fn.name == "bool"):
+        raise Unsupported("filter() with a function other than bool")
+    seq = iterate(it, src)
+    if isinstance(seq, (GenVal, LazyGen)):
+        s_ = seq_of(it, seq)
+        seq = iterate(it, Py.list(s_))
+    if isinstance(seq, list):
+        return [x for x in seq if it.branch(it.truth(x))]
+    if isinstance(seq, IterSpec):
+        saved = it.trace
+        it.trace = []
+        node = ast.parse("for __x in __s:\n    if __x:\n        yield __x").body[0]
+        fr = Frame(None, None)
+        fr.vars["__s"] = seq
+        it.run_loop(node.target, seq, node.body, [], fr)
+        items = it.trace
+        it.trace = saved
+        return GenVal(items)
+    raise Unsupported("filter over this iterable")
+
+
 _BUILTINS = None
 
 
@@ -1710,6 +1875,10 @@ def _table():
             id(builtins.getattr): Builtin("getattr", _getattr),
             id(builtins.hasattr): Builtin("hasattr", _hasattr),
             id(builtins.any): Builtin("any", _any),
+            id(builtins.filter): Builtin("filter", _filter),
+            id(itertools.islice): Builtin("islice", _islice),
+            id(itertools.tee): Builtin("tee", _tee),
+            id(collections.deque): Builtin("deque", _deque),
             id(builtins.min): Builtin("min", _minmax(True)),
             id(builtins.max): Builtin("max", _minmax(False)),
             id(builtins.all): Builtin("all", _all),
